@@ -1091,6 +1091,40 @@ def rule_optional_groups_normalised(ctx, rep, rid: str, floor: int = 4) -> None:
     if not producers:
         raise AnalysisError("no function returning a match object found")
 
+    # functions that return a LIST of match objects (all matches of a global regex): found by shape, to a fixpoint
+    list_producers: Set[int] = set()
+
+    def _produces(call: ast.AST, among: Set[int]) -> bool:
+        cs_ = ctx.cg.site_of_call.get(id(call)) if isinstance(call, ast.Call) else None
+        return cs_ is not None and bool(cs_.targets) and any(id(t) in among for t in cs_.targets)
+
+    def _local_lists(g: Func) -> Set[str]:
+        """Locals of g that hold a list of match objects."""
+        singles = {t.id for a in g.own_nodes() if isinstance(a, ast.Assign) and _produces(a.value, producers) for t in a.targets if isinstance(t, ast.Name)}
+        out: Set[str] = set()
+        for a in g.own_nodes():
+            if isinstance(a, ast.Assign) and len(a.targets) == 1 and isinstance(a.targets[0], ast.Name):
+                v = a.value
+                arms = [v.body, v.orelse] if isinstance(v, ast.IfExp) else [v]
+                for arm in arms:
+                    if _produces(arm, list_producers) or (isinstance(arm, ast.List) and any(isinstance(e, ast.Name) and e.id in singles for e in arm.elts)):
+                        out.add(a.targets[0].id)
+            if isinstance(a, ast.Call) and isinstance(a.func, ast.Attribute) and a.func.attr == "append" and isinstance(a.func.value, ast.Name) and a.args and isinstance(a.args[0], ast.Name) and a.args[0].id in singles:
+                out.add(a.func.value.id)
+        return out
+
+    changed = True
+    while changed:
+        changed = False
+        for g in ctx.tree.funcs:
+            if isinstance(g.node, ast.Lambda) or id(g) in list_producers or id(g) in producers:
+                continue
+            lists = _local_lists(g)
+            rets = [r for r in g.own_nodes() if isinstance(r, ast.Return) and r.value is not None]
+            if rets and all((isinstance(r.value, ast.Name) and r.value.id in lists) or _produces(r.value, list_producers) for r in rets):
+                list_producers.add(id(g))
+                changed = True
+
     def none_aware(n: ast.AST, f: Func) -> bool:
         p = getattr(n, "_parent", None)
         if isinstance(p, ast.BoolOp) and isinstance(p.op, ast.Or) and p.values[-1] is not n:
@@ -1115,9 +1149,8 @@ def rule_optional_groups_normalised(ctx, rep, rid: str, floor: int = 4) -> None:
             return bool(tested) and all(u in tested or any(t.lineno <= u.lineno for t in tested) for u in uses)
         return False
 
-    for f in ctx.tree.funcs:
-        if f.module.name.startswith("regex"):
-            continue
+    def own_carriers(f: Func) -> Set[str]:
+        """Locals of f (and of the functions around it) that hold one match object."""
         carriers: Set[str] = set()
         h: Optional[Func] = f
         while h is not None:
@@ -1126,15 +1159,24 @@ def rule_optional_groups_normalised(ctx, rep, rid: str, floor: int = 4) -> None:
                     p = getattr(cs.call, "_parent", None)
                     if isinstance(p, ast.Assign) and len(p.targets) == 1 and isinstance(p.targets[0], ast.Name):
                         carriers.add(p.targets[0].id)
+            # match objects taken out of a list of them: loop and comprehension variables, and `one = many[0]`
+            lists = _local_lists(h)
+            for n in h.own_nodes():
+                it = n.iter if isinstance(n, (ast.For, ast.comprehension)) else None
+                if it is not None and isinstance(n.target, ast.Name) and ((isinstance(it, ast.Name) and it.id in lists) or _produces(it, list_producers)):
+                    carriers.add(n.target.id)
+                if isinstance(n, ast.Assign) and len(n.targets) == 1 and isinstance(n.targets[0], ast.Name) and isinstance(n.value, ast.Subscript) and isinstance(n.value.value, ast.Name) and n.value.value.id in lists and not isinstance(n.value.slice, ast.Slice):
+                    carriers.add(n.targets[0].id)
             h = h.parent
+        return carriers
+
+    for f in ctx.tree.funcs:
+        if f.module.name.startswith("regex") or isinstance(f.node, ast.Lambda):
+            continue
+        carriers = own_carriers(f)
         # parameters bound to a carrier of the enclosing function at a call of this (nested) function
-        if f.parent is not None:
-            pc: Set[str] = set()
-            for cs in ctx.cg.sites_of.get(id(f.parent), []):
-                if any(id(t) in producers for t in cs.targets):
-                    p = getattr(cs.call, "_parent", None)
-                    if isinstance(p, ast.Assign) and isinstance(p.targets[0], ast.Name):
-                        pc.add(p.targets[0].id)
+        if f.parent is not None and not isinstance(f.parent.node, ast.Lambda):
+            pc = own_carriers(f.parent)
             params = f.params()
             for n in f.parent.own_nodes():
                 if isinstance(n, ast.Call) and isinstance(n.func, ast.Name) and n.func.id == f.name:
